@@ -8,6 +8,7 @@ PID = "C19"
 LEVEL = "other"
 CRATES = ["rlib_tensor"]
 RELEASE = True
+NO_HIDDEN_STATE = ['rlib_tensor']   # driver rule STATE: these crates are plain data structures / functions
 DEPENDS = ["C08", "C09"]   # the property's read/write clauses run through these packs' code (rules reported as <PID>.<rule>)
 ARMED = True
 ENGINES = ["E1", "E3", "E4a", "E9"]
